@@ -476,6 +476,26 @@ func checkEndMarker10(c *Ctx, p *packages.Package) {
 			if id, ok := ast.Unparen(s.Value).(*ast.Ident); ok && info.Uses[id] == marker && !buildPos.IsValid() {
 				buildPos = s.Pos()
 			}
+		case *ast.CallExpr:
+			// the marker node may be built by a helper of the package that Parse calls: the call is where it is appended
+			if fo, ok := objOf(info, s.Fun).(*types.Func); ok && fo.Pkg() == p.Types && !buildPos.IsValid() {
+				if hd := declOfFunc(p, fo); hd != nil && hd != parse {
+					builds := false
+					deepInspect(p, hd, 2, func(m ast.Node) bool {
+						if kv, ok := m.(*ast.KeyValueExpr); ok {
+							if id, ok := ast.Unparen(kv.Value).(*ast.Ident); ok && info.Uses[id] == marker {
+								builds = true
+							}
+						}
+						return true
+					})
+					if builds {
+						buildPos = s.Pos()
+						// arguments are evaluated first: an inner call that builds the marker comes before
+						return true
+					}
+				}
+			}
 		}
 		return true
 	})
